@@ -181,6 +181,17 @@ func checkC10(w *SketchWorld, slot int) (fails []mc.Fail) {
 			fail("C10.count", "the statistics-free encoding of the sketch underneath was accepted by the exact-variant decoder and gives count=%v empty=%v with bins of total weight %v", dec.GetCount(), dec.IsEmpty(), bins)
 		}
 	}
+	// a batch in no particular order answers like the single queries
+	if ub, err := e.GetValuesAtQuantiles([]float64{1, 0, 0.5, 0.01, 0.99}); err == nil {
+		for i, p := range []float64{1, 0, 0.5, 0.01, 0.99} {
+			if y, err := e.GetValueAtQuantile(p); err != nil || math.Float64bits(y) != math.Float64bits(ub[i]) {
+				fail("C10.quantile", "GetValuesAtQuantiles([1 0 0.5 0.01 0.99]) answers %v; the single query at q=%v answers %v (err %v)", ub, p, y, err)
+				break
+			}
+		}
+	} else {
+		fail("C10.quantile", "GetValuesAtQuantiles([1 0 0.5 0.01 0.99]) refused on a non-empty sketch: %v", err)
+	}
 	qs := []float64{0, 0.01, 0.25, 0.5, 0.75, 0.99, 1}
 	batch, berr := e.GetValuesAtQuantiles(qs)
 	for i, p := range qs {
